@@ -55,13 +55,15 @@ CHECKS['C01'] = dict(
          "calls, FEC calls, reset and gain extremes, through float/int16/int24 entry points with frame_size from 0 to 1 s "
          "incl. undersized and non-2.5ms-multiple values; packet inspectors run on exact-size copies. Distinct non-trivial = "
          "signature (call kind, API, outcome class, model-valid framing, channels, TOC config+code, Fs, frame_size class, "
-         "has-history).",
+         "has-history). climb: value-guided (1+1) search that mutates a packet to maximise the decoder's peak output, "
+         "reaching symbol extremes random payloads do not (counted in climb_extreme_gain_reached).",
     assumptions=COMMON_ASSUME + ["oracles/rfc_framing.h decides which packets have valid framing (duration rule)",
                                  "termination is observed as bounded running time (watchdog), not proved"],
     evals_counter=None,
     runs=[
         dict(h='h_c01.c', mode='single', flavour='asan', n={'quick': 14000, 'thorough': 300000}),
         dict(h='h_c01.c', mode='ms', flavour='asan', n={'quick': 6000, 'thorough': 120000}),
+        dict(h='h_c01.c', mode='climb', flavour='asan', n={'quick': 1600, 'thorough': 40000}, args=['iters=400']),
         dict(h='h_c01.c', mode='single', flavour='asan-fixed', n={'quick': 6000, 'thorough': 150000}),
         dict(h='h_c01.c', mode='ms', flavour='asan-fixed', n={'quick': 2000, 'thorough': 50000}),
     ],
